@@ -453,3 +453,108 @@ def r4b_offset_map_copies(ctx, rid="C14.r4b", backward_only=False):
 
 
 RULES += [r4b_offset_map_copies]
+
+
+def r9_backward_stores(ctx, rid="C14.r9"):
+    ctx.rule(rid, "array_adaptive backward stores: every cell that the store overwrites loses its post-constraint (it is backward-"
+             "assigned, or killed together with the overlapping cells, or the whole array is forgotten) on every non-bottom path; "
+             "a range store handles its cells BEFORE meeting the forward invariant of the statement once (a per-cell meet makes "
+             "the not-yet-handled cells contradict the invariant); nothing is skipped except an empty range", floor=4)
+
+    def filled_vectors(body):
+        """ids of local vectors that receive the written cell (push_back(mk_named_cell(..))) or the symbolic overlap"""
+        out = {}
+        for c in walk(body):
+            if c.get("k") != "call" or not callee(c):
+                continue
+            nm = callee(c)["name"]
+            if nm == "push_back" and c.get("a") and any(is_call(y, name="mk_named_cell") for y in walk(c["a"][0])):
+                o = strip(c.get("o"))
+                if isinstance(o, dict) and o.get("k") == "ref":
+                    out.setdefault(o["id"], set()).add("exact")
+            if nm == "get_overlap_cells_symbolic_offset" and c.get("a"):
+                v = strip(c["a"][-1])
+                if isinstance(v, dict) and v.get("k") == "ref":
+                    out.setdefault(v["id"], set()).add("symbolic")
+        return out
+
+    n = 0
+    for name in ("backward_array_store", "backward_array_store_range"):
+        for fn in ctx.db.fns(AA, pk=AAC + "::" + name):
+            body = fn["body"]
+            fv = filled_vectors(body)
+
+            def gen(x, fv=fv):
+                out = []
+                if x.get("k") == "call" and callee(x):
+                    nm = callee(x)["name"]
+                    if nm == "do_backward_assign":
+                        out.append("handled")
+                    if nm == "forget_array":
+                        out.append("handled")
+                    if nm == "kill_cells" and len(x.get("a", [])) >= 2:
+                        v = strip(x["a"][1])
+                        if isinstance(v, dict) and v.get("k") == "ref" and v.get("id") in fv:
+                            out.append("handled")
+                        else:
+                            out.append("killed-overlap-only")
+                return out
+
+            def branch_labels(cond, pol):
+                c, p = strip(cond), pol
+                while isinstance(c, dict) and c.get("k") == "un" and c.get("op") == "!":
+                    c, p = strip(c.get("e")), not p
+                if is_call(c, name="is_bottom") and p and (c.get("o") is None or is_this(deref(c.get("o")))):
+                    return None
+                if is_call(c, name="is_smashed") and p:
+                    return ("smashed",)
+                # empty range:  !(lb <= ub)  (possibly conjoined with the tests that both bounds are known)
+                if pol and any(y.get("k") == "un" and y.get("op") == "!" and any(is_call(z, name="operator<=") for z in walk(y.get("e")))
+                               for y in walk(cond)):
+                    return ("empty-range",)
+                return ()
+            class _PathSets(dm._MayMust):
+                """one label set per class of paths; a decided condition labels (or cuts) the paths that take the branch"""
+                def refine(self, cond, st, pol, _r=branch_labels):
+                    extra = _r(cond, pol)
+                    if extra is None:
+                        return None
+                    if extra:
+                        return frozenset(p | frozenset(extra) for p in st)
+                    return st
+            try:
+                fl = _PathSets(lambda x: (), gen)
+                fl.run(body)
+            except paths.Unstructured:
+                ctx.skipped("%s|%s" % (rid, name), rid=rid)
+                continue
+            for r, st in [(r, p) for r, ps in fl.returns for p in sorted(ps, key=sorted)]:
+                n += 1
+                if "handled" in st or "empty-range" in st:
+                    ctx.ok("%s: overwritten cells handled" % name, fn, r, rid=rid)
+                elif "smashed" in st and name == "backward_array_store":
+                    ctx.exempt("array_adaptive::backward_array_store on a smashed array", "documented as not implemented (warning); the "
+                               "smashed summary lives in the base domain's own array abstraction", rid=rid)
+                else:
+                    what = "kills only the cells that OVERLAP the written cell, not the written cell itself" if "killed-overlap-only" in st \
+                        else "returns without touching the overwritten cells"
+                    ctx.bad("array_adaptive_domain::%s %s: the constraint that the postcondition puts on the stored value stays as a "
+                            "constraint on the OLD content of the cell, so the precondition excludes states from which the error is "
+                            "reachable" % (name, what), fn, r if r is not None else body,
+                            sig="backward-store-keeps-post-constraint:%s" % name, rid=rid)
+            if name == "backward_array_store_range":
+                loops = [l for l in walk(body) if l.get("k") in ("for", "while", "do", "rangefor")]
+                per_cell = [c for l in loops for c in walk(l.get("b")) if is_call(c, name="backward_array_store")]
+                n += 1
+                if per_cell:
+                    ctx.bad("array_adaptive_domain::backward_array_store_range calls backward_array_store once per cell: each call meets "
+                            "with the forward invariant of the WHOLE statement while the other cells of the range still carry their "
+                            "post-constraints, which yields a spurious bottom (A[0..4]:=7; y:=A[4..7]; assert(y<=5) is proved)", fn,
+                            per_cell[0], sig="range-store-per-cell-meet", rid=rid)
+                else:
+                    ctx.ok("backward_array_store_range: no per-cell meet with the statement's invariant", fn, body, rid=rid)
+    if n == 0:
+        ctx.fail("rule %s: backward_array_store / backward_array_store_range not found" % rid)
+
+
+RULES += [r9_backward_stores]
